@@ -6,8 +6,10 @@
    Proved: range of the wrap; the reported distance is the least (biased) wrapped length over the qualifying
    operators and the reported operator realises it; the bond label is exactly the library's rule; the wrapped vector
    is the shortest of all its lattice translates when shorter than half the shortest lattice vector (minimum image).
-   Not proved (checked by correspondence against a union-find reference): molecule numbering. *)
-From SX Require Import Base.RTac Model.Sdm Spec.GeomSpec Gen.K_cell Proofs.SdmProofs.
+   Molecule numbers (C13_molindex_components, Proofs/MolProofs.v, for every numeric interpretation, every item list and any
+   number of atoms): the label propagation of calc_molindex ends within the fuel of the model, numbers every atom, and
+   gives two atoms the same number exactly when they are connected by bonded pairs (conn = equivalence closure). *)
+From SX Require Import Base.RTac Model.Sdm Spec.GeomSpec Gen.K_cell Proofs.SdmProofs Proofs.MolProofs.
 Import ListNotations.
 Open Scope R_scope.
 
@@ -77,3 +79,21 @@ Theorem C13_min_image_spacing (M Minv : mat) (v : vec) (kx ky kz : Z) :
   snd (wrap1 ROps (vx v + IZR kx)) = vx v /\ snd (wrap1 ROps (vy v + IZR ky)) = vy v /\ snd (wrap1 ROps (vz v + IZR kz)) = vz v.
 Proof. exact (min_image_spacing M Minv v kx ky kz). Qed.
 Print Assumptions C13_min_image_spacing.
+
+Theorem C13_molindex_components (T : Type) (items : list (sitem (T:=T))) (atoms : list (satom (T:=T))) :
+  atoms <> [] ->
+  (forall i j, In (i, j) (cov_edges items) -> (i < length atoms)%nat /\ (j < length atoms)%nat) ->
+  let idx := molindex items atoms in
+  length idx = length atoms /\
+  (forall i, (i < length atoms)%nat -> (1 <= get_idx idx i)%Z) /\
+  (forall i j, (i < length atoms)%nat -> (j < length atoms)%nat ->
+     (get_idx idx i = get_idx idx j <-> conn (cov_edges items) i j)).
+Proof. exact (molindex_components items atoms). Qed.
+Print Assumptions C13_molindex_components.
+
+Theorem C13_molindex_example :
+  let it := fun a b c => {| it_a1 := a; it_a2 := b; it_dist := tt; it_n := 0%nat; it_cov := c |} in
+  let at_ := {| sa_x := tt; sa_y := tt; sa_z := tt; sa_h := false; sa_part := 0%Z; sa_radius := tt; sa_qpeak := false; sa_an := 6%Z |} in
+  molindex [it 0 2 true; it 2 0 true; it 0 1 false; it 3 1 true; it 1 3 true]%nat [at_; at_; at_; at_; at_] = [1; 2; 1; 2; 3]%Z.
+Proof. exact molindex_example. Qed.
+Print Assumptions C13_molindex_example.
